@@ -4,7 +4,10 @@
 // domain is executed on the real tsdb.SeriesFile in a fresh directory and compared, after every step, with
 // a reference model {key -> live id, ids ever handed out} written from the property statement.
 //
-// The file is split so that a crash-image engine can reuse it:
+// Schedule part (engine vsched): one writer thread against the partition's background index compaction.
+// Crash family (engine crashfs): every prefix / torn / unsynced image of recorded histories.
+//
+// The file is split so that the crash-image engine can reuse it:
 //   - PerformHistory = the "history writer": performs an op list on a directory and reports every
 //     acknowledgement through an Acker (crashfs.Markers satisfies it);
 //   - CheckRecovery  = the "recovery checker": opens a directory with the real code, reads everything
@@ -30,10 +33,12 @@ import (
 	"strings"
 	"sync"
 	"testing"
+	"testing/synctest"
 	"time"
 
 	"github.com/cespare/xxhash/v2"
 	"github.com/influxdata/influxdb/v2/models"
+	"github.com/influxdata/influxdb/v2/pkg/verifrt/vrt"
 	"github.com/influxdata/influxdb/v2/tsdb"
 	"verif/h/crashfs"
 	"verif/h/vlib"
@@ -836,6 +841,7 @@ type Case struct {
 	// create every op key again, read all; 2 = additionally a second restart + read all; 0 = none.
 	Tail  int        `json:"tail"`
 	Crash *CrashCase `json:"crash,omitempty"` // crash family (then the other fields are unused)
+	Sched *SchedCase `json:"sched,omitempty"` // schedule part (then the other fields are unused)
 }
 
 type runResult struct {
@@ -2062,7 +2068,7 @@ func runCrash(c *vlib.Ctx) {
 			c.HarnessError(fmt.Sprintf("crash family: explorer panicked: %v\n%s", r, debug.Stack()))
 		}
 	}()
-	if os.Getenv("C13_ONLY") == "seq" {
+	if os.Getenv("C13_ONLY") == "seq" || os.Getenv("C13_ONLY") == "sched" {
 		return
 	}
 	scratch := vlib.Scratch("c13c-")
@@ -2107,6 +2113,294 @@ func replayCrash(cs *CrashCase) (bool, string) {
 	return clause != "harness" && o.Clause != "harness", obs + clause + "@" + stage + ": " + detail
 }
 
+// =========================================================================================================
+// schedule part (engine: vsched) — one writer thread against the partition's own index compaction
+//
+// With CompactThreshold = 1 a creating call starts the partition's background index compaction (go Compact:
+// snapshot under RLock, index rebuilt without a lock, swap + replay of the entries since the snapshot under Lock)
+// and returns; the writer's NEXT calls run while that goroutine is somewhere between snapshot and swap. The
+// scheduler (tsdb/series_partition.go compiled against the modelled sync) decides how far each side gets at
+// every Lock/RLock of the partition.
+
+// SchedCase is the replayable form of one schedule.
+type SchedCase struct {
+	Init     []Op  `json:"init,omitempty"` // executed unscheduled, compactions awaited
+	Ops      []Op  `json:"ops"`            // the writer thread's program
+	Schedule []int `json:"schedule"`
+	// Points: which operations are decision points: "wlocks" = every write Lock of tsdb/series_partition.go plus the
+	// compactor's snapshot RLock plus the writer's op boundaries; "locks" = every Lock and RLock (the series file fans
+	// every call out to a goroutine per partition, each taking the RLock of its partition: 8 more points per call).
+	Points string `json:"points"`
+	Want   string `json:"want,omitempty"`
+}
+
+var cfgSched = Cfg{Domain: DomSmall, Auto: true}
+
+func schedFilter(points string) func(kind vrt.OpKind, label string) bool {
+	return func(kind vrt.OpKind, label string) bool {
+		switch {
+		case kind == vrt.OpLock || kind == vrt.OpHook:
+			return true
+		case kind == vrt.OpRLock:
+			return points == "locks" || strings.Contains(label, "SeriesPartitionCompactor")
+		}
+		return false
+	}
+}
+
+// schedExec performs one create/delete on the open series file WITHOUT waiting for the compaction it may start.
+func schedExec(sf *tsdb.SeriesFile, d *Domain, op Op, lastID map[int]uint64) (res OpResult) {
+	switch op.Kind {
+	case OpCreate:
+		names := make([][]byte, len(op.Keys))
+		tags := make([]models.Tags, len(op.Keys))
+		for i, k := range op.Keys {
+			names[i], tags[i] = []byte(d.Keys[k].Name), d.Keys[k].mtags()
+		}
+		ids, e := sf.CreateSeriesListIfNotExists(names, tags)
+		if e != nil {
+			res.Err = e.Error()
+			return
+		}
+		res.IDs = append([]uint64(nil), ids...)
+		for i, k := range op.Keys {
+			lastID[k] = ids[i]
+		}
+	case OpDelete:
+		id := lastID[op.Keys[0]]
+		if id == 0 {
+			id = unknownID(d, op.Keys[0])
+		}
+		res.Target = id
+		if _, e := sf.DeleteSeriesID(id, true); e != nil {
+			res.Err = e.Error()
+		}
+	default:
+		panic("schedule part: op " + op.Kind)
+	}
+	return
+}
+
+type schedOut struct {
+	Harness string
+	Fail    *Fail
+	Stage   string // op-result | quiescent | re-create
+	Model   *Model
+	Layout  string
+}
+
+func schedHarness(base string, sc SchedCase, out *schedOut) *vrt.Harness {
+	return &vrt.Harness{Name: "c13:" + opsString(sc.Init) + " | " + opsString(sc.Ops), Filter: schedFilter(sc.Points), Body: func(x *vrt.Exec) {
+		*out = schedOut{}
+		d := getDomain(cfgSched.Domain)
+		dir, err := os.MkdirTemp(base, "s")
+		if err != nil {
+			out.Harness = err.Error()
+			return
+		}
+		defer os.RemoveAll(dir)
+		m := NewModel()
+		out.Model = m
+		sf, err := openSF(filepath.Join(dir, "_series"), cfgSched)
+		if err != nil {
+			out.Harness = "open: " + err.Error()
+			return
+		}
+		defer sf.Close() // waits for the partitions' goroutines
+		lastID := map[int]uint64{}
+		for _, op := range sc.Init {
+			res := schedExec(sf, d, op, lastID)
+			waitIdle(sf)
+			if f := m.Apply(d, op, res); f != nil {
+				out.Harness = "init " + op.String() + ": " + f.Why
+				return
+			}
+		}
+		synctest.Wait()
+		results := make([]OpResult, 0, len(sc.Ops))
+		x.Go("writer", func() {
+			for _, op := range sc.Ops {
+				vrt.Hook("op:" + op.Kind)
+				results = append(results, schedExec(sf, d, op, lastID))
+			}
+		})
+		x.Run()
+		if x.S.Deadlock || x.S.StepCap {
+			x.S.Abort()
+			return
+		}
+		x.S.Drain()
+		waitIdle(sf)
+		for i, res := range results {
+			if f := m.Apply(d, sc.Ops[i], res); f != nil {
+				out.Fail, out.Stage = f, "op-result"
+				return
+			}
+		}
+		o := ReadAll(sf, d, usedIDs(m))
+		out.Layout = o.Layout
+		if _, f := Compare(d, o, Expect{M: m}); f != nil {
+			out.Fail, out.Stage = f, "quiescent"
+			return
+		}
+		// every key once more: live keys keep their id, the others get ids never handed out
+		all := Op{Kind: OpCreate, Keys: tailKeys(d)}
+		res := schedExec(sf, d, all, lastID)
+		waitIdle(sf)
+		if f := m.Apply(d, all, res); f != nil {
+			out.Fail, out.Stage = f, "re-create"
+			return
+		}
+		if f := compareOpen(sf, d, m); f != nil {
+			out.Fail, out.Stage = f, "re-create"
+		}
+	}}
+}
+
+// SchedAlphabet: the writer's ops on the two keys sharing a partition.
+func SchedAlphabet() []Op {
+	return []Op{mkOp(OpCreate, 0), mkOp(OpCreate, 1), mkOp(OpCreate, 0, 1), mkOp(OpDelete, 0), mkOp(OpDelete, 1)}
+}
+
+// SchedInits: what the series file holds (index compacted) when the writer starts.
+func SchedInits() [][]Op {
+	return [][]Op{nil, {mkOp(OpCreate, 0)}, {mkOp(OpCreate, 0, 1)}}
+}
+
+func schedScenarios(progLen int, points string) []SchedCase {
+	var out []SchedCase
+	for _, in := range SchedInits() {
+		forEachSeq(SchedAlphabet(), progLen, progLen, func(ops []Op) bool {
+			out = append(out, SchedCase{Init: in, Ops: ops, Points: points})
+			return true
+		})
+	}
+	return out
+}
+
+func schedSig(o *schedOut) string {
+	clause := o.Fail.Clause
+	if clause == "panic" {
+		clause = "panic/" + strings.TrimPrefix(o.Fail.Why[strings.LastIndex(o.Fail.Why, "@ ")+2:], "github.com/influxdata/influxdb/v2/")
+	}
+	return vlib.JoinSig("schedule", clause, o.Stage, "writer-vs-index-compaction")
+}
+
+// runSched explores every schedule of one scenario with <= bound preemptions.
+func runSched(t *testing.T, c *vlib.Ctx, base string, sc SchedCase, bound int) (complete bool) {
+	var out schedOut
+	h := schedHarness(base, sc, &out)
+	st := vrt.Explore(t, h, bound, 0, 1, c.Expired, func(r *vrt.Result) {
+		c.Eval(1)
+		if r.Preempts > 0 {
+			c.NontrivialN(1)
+		}
+		if r.Diverged != "" {
+			c.HarnessError("sched " + h.Name + ": " + r.Diverged)
+			return
+		}
+		cs := sc
+		cs.Schedule = r.Choices
+		if r.Deadlock || r.StepCap {
+			what := "deadlock"
+			if r.StepCap {
+				what = "livelock(step cap)"
+			}
+			c.Outcome("sched:" + what)
+			cs.Want = vlib.JoinSig("schedule", what)
+			c.Violation(cs.Want, fmt.Sprintf("schedule part: init [%s], writer [%s]: %s: %s", opsString(sc.Init), opsString(sc.Ops), what, strings.Join(r.Blocked, "; ")), Case{Sched: &cs})
+			return
+		}
+		if out.Harness != "" {
+			c.HarnessError(fmt.Sprintf("sched init [%s] writer [%s] schedule %v: %s", opsString(sc.Init), opsString(sc.Ops), r.Choices, out.Harness))
+			return
+		}
+		if out.Fail == nil {
+			c.Outcome(fmt.Sprintf("sched:end:%d-live/%d-ids-used/%d-preemptions/%s", len(out.Model.Live), len(out.Model.Used), r.Preempts, layoutClass(out.Layout)))
+			if c.WantSample() && r.Preempts == bound && len(out.Model.Used) > 1 {
+				c.Sample(map[string]any{"part": "schedules", "init": opsString(sc.Init), "writer": opsString(sc.Ops), "schedule": r.Choices, "preemptions": r.Preempts, "live": fmt.Sprint(out.Model.Live)})
+			}
+			return
+		}
+		cs.Want = schedSig(&out)
+		c.Outcome("FAIL:sched:" + out.Fail.Clause + "@" + out.Stage)
+		var trace []string
+		for _, s := range r.Steps {
+			trace = append(trace, fmt.Sprintf("T%d %s", s.Thread, s.Label))
+		}
+		c.Violation(cs.Want, fmt.Sprintf("schedule part: init [%s], writer [%s], %d preemptions, stage %s: %s | steps: %s", opsString(sc.Init), opsString(sc.Ops), r.Preempts, out.Stage, out.Fail.Why, strings.Join(trace, "; ")), Case{Sched: &cs})
+	})
+	c.StateN(st.Nodes)
+	c.Transition(st.Transitions)
+	c.Trace(st.Executions)
+	c.Extra("schedule_executions", st.Executions)
+	return st.Complete
+}
+
+// layoutClass: did the compaction finish before the final read (on-disk index present in the pair's partition)?
+func layoutClass(lay string) string {
+	if strings.Contains(lay, "idxtrue") {
+		return "index-on-disk"
+	}
+	return "index-in-memory"
+}
+
+// runSchedules: phases of (writer program length, preemption bound), simplest first.
+func runSchedules(t *testing.T, c *vlib.Ctx) {
+	if os.Getenv("C13_ONLY") == "crash" || os.Getenv("C13_ONLY") == "seq" {
+		return
+	}
+	base := vlib.Scratch("c13s-")
+	defer os.RemoveAll(base)
+	type phase struct {
+		progLen, bound int
+		points         string
+	}
+	phases := []phase{{2, 2, "wlocks"}}
+	if c.Thorough() {
+		phases = []phase{{1, 2, "wlocks"}, {2, 3, "wlocks"}, {3, 2, "wlocks"}, {2, 1, "locks"}}
+	}
+	for pi, ph := range phases {
+		scs := schedScenarios(ph.progLen, ph.points)
+		for si, sc := range scs {
+			if !c.Mine(int64(si)) {
+				continue
+			}
+			if c.Expired() || !runSched(t, c, base, sc, ph.bound) {
+				c.Cap(fmt.Sprintf("budget expired in the schedule part, phase %d of %d (writer programs of length %d, preemption bound %d, points %s)", pi+1, len(phases), ph.progLen, ph.bound, ph.points))
+				return
+			}
+		}
+		if c.Shard == 0 {
+			c.Extra(fmt.Sprintf("sched_scenarios_len%d_bound%d_%s", ph.progLen, ph.bound, ph.points), int64(len(scs)))
+		}
+	}
+}
+
+func replaySched(t *testing.T, cs *SchedCase) (bool, string) {
+	base := vlib.Scratch("c13sr-")
+	defer os.RemoveAll(base)
+	var out schedOut
+	r := vrt.RunOnce(t, schedHarness(base, *cs, &out), cs.Schedule)
+	if os.Getenv("C13_TRACE") != "" { // development aid
+		for i, st := range r.Steps {
+			fmt.Fprintf(os.Stderr, "step %d: T%d %s enabled=%v\n", i, st.Thread, st.Label, st.Enabled)
+		}
+	}
+	obs := fmt.Sprintf("schedule part: init=[%s] writer=[%s] schedule=%v", opsString(cs.Init), opsString(cs.Ops), cs.Schedule)
+	switch {
+	case r.Diverged != "":
+		return false, obs + " -> diverged: " + r.Diverged
+	case r.Deadlock || r.StepCap:
+		return true, obs + fmt.Sprintf(" -> deadlock=%v stepcap=%v blocked=%v", r.Deadlock, r.StepCap, r.Blocked)
+	case out.Harness != "":
+		return false, obs + " -> harness problem: " + out.Harness
+	case out.Fail == nil:
+		return false, obs + fmt.Sprintf(" -> ok live=%v deleted=%v", out.Model.Live, out.Model.Dead)
+	}
+	return true, obs + fmt.Sprintf(" -> %s at stage %s: %s", out.Fail.Clause, out.Stage, out.Fail.Why)
+}
+
 func TestCheck(t *testing.T) {
 	if js := os.Getenv("VERIF_CRASH_WRITER"); js != "" {
 		os.Exit(crashWriterMain(js))
@@ -2137,7 +2431,7 @@ func TestCheck(t *testing.T) {
 		return
 	}
 	vlib.Main(t, &vlib.Check{
-		ID: "C13", Level: "model_checking", QuickBudgetS: 60, ThoroughBudgetS: 780, WorkerEnv: []string{"GOMAXPROCS=2"},
+		ID: "C13", Level: "model_checking", QuickBudgetS: 60, ThoroughBudgetS: 780, WorkerEnv: []string{"GOMAXPROCS=1"},
 		Rule: "every op sequence within the stated length bounds, each executed from scratch on the real tsdb.SeriesFile (8 partitions) in a fresh directory, in five families (visited in this order; a run that hits its wall budget says which family it stopped in). " +
 			"(explicit: length <= 3 quick / <= 4 thorough) 13-op alphabet over 4 keys K0..K3 (K0,K1 in one partition, K2,K3 in two others): create{K0},{K1},{K2},{K3}, batch create {K0,K1}, {K1,K1} (duplicate inside one call), {K3,K0,K1,K2,K0}; DeleteSeriesID(id last returned for Ki) for i=0..3 (an id never handed out when Ki was never created; the same id again when already deleted); reopen (Close + new SeriesFile + Open); compact (SeriesPartitionCompactor.Compact on all 8 partitions: index rebuilt to index.compacting, renamed, in-memory tail replayed). " +
 			"(auto: length <= 2 / <= 3) the same alphabet without the explicit compact but with CompactThreshold=1: every creating call starts the partition's own background index compaction, which is awaited. " +
@@ -2145,6 +2439,7 @@ func TestCheck(t *testing.T) {
 			"(explicit-pair: length exactly 4 quick / 5 and 6 thorough) 6-op alphabet over the two keys sharing a partition {create K0, create K1, delete K0, delete K1, reopen, compact}; (auto-pair: length 3 / 4,5) the same without compact and with CompactThreshold=1. " +
 			"After EVERY step: returned ids judged by the model (same key -> same id; two occurrences in one call -> same id; distinct keys -> distinct ids; new or re-created key -> id never handed out before, non-zero), then SeriesID/HasSeries of every key of the domain (live -> its id; deleted or never created -> 0), SeriesKey(id) of every live id parses back to its key, IsDeleted false for live and true for deleted ids. After the last step the recovery checker: Close, Open, read all, create all op keys again in one call (live keep ids, others get never-used ids), read all; thorough additionally Close, Open, read all. " +
 			"State = canonical model state (per key never/live/deleted + number of incarnations) + file layout (per touched partition: on-disk index count, in-memory count, number of segments, index file present); transition = one executed op; trace = one complete history validated on the implementation. Non-trivial = histories that create at least one series (distinct by construction). " +
+			"SCHEDULE PART (engine vsched; both tiers, after the crash family): series file with CompactThreshold=1, so a creating call starts the partition's background index compaction (go Compact: segment snapshot under RLock, index rebuilt without a lock, swap + replay of the entries since the snapshot under Lock) and returns; ONE writer thread then runs every program of length 2 (quick; thorough: 1, 2 and 3) over {create K0, create K1, create {K0,K1}, delete K0, delete K1} (K0, K1 in one partition) from 3 initial contents {empty, K0, K0+K1} (index compacted), nothing awaited between its calls; tsdb/series_partition.go is compiled against the modelled sync and EVERY schedule with <= 2 preemptions (thorough: 2 / 3 / 2) is executed at the decision points = every write Lock of the partition, the compactor's snapshot RLock and the writer's op boundaries (thorough additionally: programs of length 2 with <= 1 preemption at every Lock and RLock, i.e. also the 8 per-partition lookups of every call). When the writer has finished the scheduler is drained, compactions are awaited, the returned ids are judged by the model, SeriesID/HasSeries/SeriesKey/IsDeleted of every key and id are compared exactly, every key is created once more (live keep ids, others get never-used ids) and compared again (no reopen: a reopen re-reads the segments). Deadlock and step cap are violations. For this part states = decision nodes of the schedule trees, transitions = scheduling steps, traces = executions; non-trivial = executions with >= 1 preemption. " +
 			"CRASH FAMILY (additional clause, engine crashfs; counted under the crash_* coverage keys and the crash:* outcomes, not under states/transitions/traces): histories performed by a writer subprocess (PerformHistory on the real SeriesFile, GOMAXPROCS=1) under strace with BEGIN/ACK markers around the initial Open of the empty directory and every op; the process exits without closing. Quick: 5 hand-picked histories, every cut (open-create-batch: initial Open of 8 partitions, single create, create of a live + a new key of one partition, batch over 3 partitions with a repeat; delete-recreate: 8 ops with tombstones, re-creation, reopen, delete of a deleted id; id-byte-boundary: 32 series in partition 7 (ids 8..0x100) acknowledged in one call, then create (id 0x108), delete of it, create of two, delete of id 0x100, re-creation — cuts from op 1 on; compact: explicit index compaction of one partition twice (index.compacting written, fsynced, renamed over index) with live, deleted and later entries; auto-compact: CompactThreshold=1, background compaction inside the creating call), split into 10 work items by op window (each item re-records the history and evaluates the cuts of its ops only). Thorough: longer versions of these (one work item per op), the whole 32-entry prefill write of id-byte-boundary, compaction of all 8 partitions, a segment-roll history (64 keys of 65 KB fill segment 0000; big key A rolls to 0001, short key, delete, big key B, delete of a prefill key; images built one by one from descriptors for the cuts from op 1 on: every P cut, torn lengths 1..64, every 4096th, last 64 of each write, and the drop-all U image of every cut), plus EVERY sequence of length 1..2 over the 8-op crash alphabet {create K0, K1, {K0,K1}, {K3,K0,K1,K2,K0}, delete K0, delete K1, reopen, compact(partition of K0)} and of length 3 over its 6-op same-partition part (cuts of the last op only, so every (prefix, cut) is evaluated once). Per history every prefix of the syscall-level event list (P), every torn length 1..n-1 of the write in flight (T; all writes of the non-roll histories are < 4096 bytes: no subsampling), and for the sync classes (segment files 0000.., also under their .initializing name; index and index.compacting) the images with un-fsynced data dropped or its last write torn (U); directory operations in program order; images deduplicated by (content, acknowledged ops, op in flight). One evaluation = one (image, acknowledgement context) recovered in a fresh subprocess by CheckRecovery: real SeriesFile.Open on the image; SeriesID/HasSeries of every key, SeriesKey/IsDeleted of every id ever acknowledged; re-creation of every key of the domain in one call; read all; Close; Open (second restart); read all. Crash oracle: Open succeeds; every series acknowledged before the cut keeps (key, id) (SeriesID(key) = id, SeriesKey(id) = key, not deleted), every acknowledged (flushed) delete stays deleted; keys of a create in flight are absent or live with a never-acknowledged id whose SeriesKey is the key; the target of a delete in flight is live with its id or deleted; keys created after the recovery get ids never acknowledged before, distinct, and all of this is unchanged after the second restart. Non-trivial crash case = at least one series acknowledged before the cut.",
 		Assumptions: []string{
 			"SeriesCount is not judged (the statement does not define it; it counts deleted series until the next index compaction) — only recorded as an outcome class",
@@ -2157,11 +2452,13 @@ func TestCheck(t *testing.T) {
 			"crash family: deletes are flushed (DeleteSeriesID(id, true)); an acknowledged delete must then stay deleted. Unflushed deletes are not part of the crash histories",
 			"crash family: an insert entry found in a segment after recovery that nobody acknowledged and that is not a key of the create in flight (a torn entry read back as a complete one with a truncated key) is NOT judged — the statement only protects series that had been created; it is counted (crash_images_with_unacknowledged_foreign_entries, outcome suffix /foreign-entries)",
 			"crash family: the second restart is a clean Close + Open after the re-creation",
+			"schedule part: sequentially consistent interleavings at Lock/RLock granularity of tsdb/series_partition.go only (series_index.go, series_segment.go, series_file.go keep the real sync package and run atomically between two points); one writer thread, no concurrent reader; queries at quiescence only",
 			"the crash family runs first and may use at most half of the wall budget (30 s quick / 390 s thorough); beyond that it is capped (exhaustive:false), never an alarm",
 		},
 		Run: func(c *vlib.Ctx) {
-			runCrash(c) // crash family first: of fixed size, so a budget cap always lands in the sequence families
-			if os.Getenv("C13_ONLY") == "crash" {
+			runCrash(c)        // crash family first: of fixed size, so a budget cap always lands in the sequence families
+			runSchedules(t, c) // schedule part: small
+			if os.Getenv("C13_ONLY") == "crash" || os.Getenv("C13_ONLY") == "sched" {
 				return
 			}
 			base := vlib.Scratch("c13-")
@@ -2229,6 +2526,9 @@ func TestCheck(t *testing.T) {
 			}
 			if cs.Crash != nil {
 				return replayCrash(cs.Crash)
+			}
+			if cs.Sched != nil {
+				return replaySched(t, cs.Sched)
 			}
 			base := vlib.Scratch("c13r-")
 			defer os.RemoveAll(base)
